@@ -54,4 +54,30 @@ theorem flattens_flatL (keep : Id → Bool) : ∀ p : List (Spec τ), Spec.okTL 
       simpa using this
 end
 
+/-- the whole run: enter phase, then the main loop in lockstep (used by C04 and, projected on one doer, by C03) -/
+theorem Flattens.sameView {keep : Id → Bool} {p q : List (Spec τ)} (hF : Flattens keep p q)
+    (hG : Spec.allStepsL g04 p = true) (pool : List (Spec τ)) {tock : τ} (h0 : 0 ≤ tock) (start : τ)
+    (limit : Option τ) (fuel : Nat) :
+    SameView keep (doistDo pool tock start limit fuel p) (doistDo pool tock start limit fuel q) := by
+  obtain ⟨esP, N0, esQ, F0, hP, hQ, hv, hs⟩ := hF.enter hG start
+  have hvQ : keepView keep esQ = esQ := by rw [← hv, keepView_idem]
+  unfold doistDo
+  rw [hP, hQ]
+  simp only []
+  obtain ⟨e1, e2, e3, e4, e5, e6⟩ :=
+    Sim.doLoop h0 pool (limit.map (start + ·)) fuel 0 start false N0 F0 (p.map Spec.id) (q.map Spec.id) hs
+  exact ⟨by simp only [keepView_append, hv, hvQ, e1], e2, e3, e4, e5, e6⟩
+
+omit [Add τ] [LE τ] [DecidableRel (α := τ) (· ≤ ·)] [OfNat τ 0] [BEq τ] [LawfulTyme τ] in
+/-- the resumptions of a kept doer can be read off the kept view -/
+theorem keepView_recurTymes (keep : Id → Bool) (i : Id) (hk : keep i = true) (evs : List (Ev τ)) :
+    recurTymes i (keepView keep evs) = recurTymes i evs := by
+  simp only [recurTymes, keepView, List.filter_filter]
+  congr 1
+  apply List.filter_congr
+  intro e _
+  by_cases h : e.id = i
+  · simp [h, hk]
+  · simp [h]
+
 end Hio.Sched
